@@ -785,7 +785,7 @@ def rule_no_domain_mutation(db: ProgramDB) -> List[Instance]:
             out.append(inst("NO-DOMAIN-MUTATION", HOLDS, fn, fn.short,
                             "handles the user's domain object and applies no mutating operation to it"))
     example = ("def let2(type_, domain):\n    domain.sort()\n    d = domain\n    d.append(1)\n    return d\n")
-    db2 = ProgramDB(repo=db.repo, overrides=dict(db.overrides, __eqlsa_example__=example))
+    db2 = ProgramDB(repo=db.repo, overrides=dict(db.source_overrides, __eqlsa_example__=example))
     if len(domain_mutations(db2, db2.fn("__eqlsa_example__:let2"))) != 2:
         out.append(inst("NO-DOMAIN-MUTATION", UNDECIDED, "", "positive-example",
                         "the rule did not fire on its built-in positive example"))
